@@ -222,8 +222,10 @@ func verifHarnessC14HandlersStateless() {
 	wB := &verifRecorder{header: http.Header{}}
 	wA.during = func() { s.get(wB, verifPlainRequest("/api/get", docB)) }
 
+	raceBegin()
 	s.get(wA, verifPlainRequest("/api/get", docA))
 	joinConcurrent()
+	raceEnd() // handlers share no memory they write (apart from what the database guards)
 	verifDBValueFor = nil
 
 	assert("both-served", and(wA.status == 200, wB.status == 200, len(wA.body) == 1, len(wB.body) == 1))
